@@ -233,6 +233,10 @@ func checkC07(p *Prog, rp *Report) {
 		}
 	}
 	scripts = append(scripts, []string{}, []string{"A: 1\n", " x\n", " y\n", " .\n", "B: 2\n", "\n", "\n", "C: 3\n"})
+	// lines that end in a letter whose last UTF-8 byte, taken for a rune of its own, is white space
+	// (à = C3 A0, Å = C3 85): trimming works on runes
+	scripts = append(scripts,
+		[]string{"Description: voil\u00e0\n", " d\u00e9j\u00e0\n", " \u00c5\n", " \u00c5ngstr\u00f6m \u00c5 \t\n", "Title: \u00c5\n"})
 	// lines far longer than any reader buffer
 	long := strings.Repeat("lib-x (>= 1.0), ", 600)
 	scripts = append(scripts, []string{"Package: p\n", "Depends: " + long + "\n", " " + long + "\n", "Section: s\n", "\n", "Package: q\n"})
@@ -366,12 +370,25 @@ func checkC07(p *Prog, rp *Report) {
 		} else {
 			var problems []string
 			undecided := ""
-			docs := [][]string{{"A: b\n"}, {"A: b"}, {}, {"\n"}, {"A:\n"}, {"Alpha: one\n", "\n", "Beta: two\n"}, {"# c\n", "Package: a-long-enough-first-line\n", " more\n"}}
+			docs := [][]string{{"A: b\n"}, {"A: b"}, {}, {"\n"}, {"A:\n"}, {"Alpha: one\n", "\n", "Beta: two\n"}, {"# c\n", "Package: a-long-enough-first-line\n", " more\n"},
+				// an apt sources stanza with its key embedded: armor lines inside a folded value are data
+				{"Types: deb\n", "URIs: https://example.org/debian\n", "Signed-By:\n", " -----BEGIN PGP PUBLIC KEY BLOCK-----\n", " .\n", " mDMEY1\n", " -----END PGP PUBLIC KEY BLOCK-----\n"},
+				{"\n", "\n", "Note: see -----BEGIN PGP SIGNED MESSAGE----- below\n", " -----BEGIN PGP SIGNATURE-----\n"}}
 			for _, doc := range docs {
 				m := readerMachine(p, doc)
 				m.Hooks["bufio.NewReader"] = func(m *Machine, st *State, call *ssa.CallCommon, args []Val) ([]Val, bool) {
 					id := st.alloc(types.Typ[types.Int], OpaqueV{"bufio"})
 					return []Val{Ptr{Obj: id}}, true
+				}
+				// a constructor that takes one of these plain documents for a clearsigned one reads it whole and finds
+				// no signed message in it (none has "-----BEGIN PGP SIGNED MESSAGE-----" at the start of a line)
+				readAll := func(m *Machine, st *State, call *ssa.CallCommon, args []Val) ([]Val, bool) {
+					return []Val{&TupleV{E: []Val{byteSliceVal(st, []byte(m.PeekRest(st))), nilV{}}}}, true
+				}
+				m.Hooks["io/ioutil.ReadAll"] = readAll
+				m.Hooks["io.ReadAll"] = readAll
+				m.Hooks["golang.org/x/crypto/openpgp/clearsign.Decode"] = func(m *Machine, st *State, call *ssa.CallCommon, args []Val) ([]Val, bool) {
+					return []Val{&TupleV{E: []Val{nilV{}, args[0]}}}, true
 				}
 				st := initState(m, "control")
 				if st.Status == stStuck {
@@ -443,7 +460,7 @@ func checkC07(p *Prog, rp *Report) {
 			if undecided != "" {
 				nw.undecided("control.NewParagraphReader", p.Pos(ctor.Pos()), undecided)
 			} else {
-				fillProblems(nw, "control.NewParagraphReader", p.Pos(ctor.Pos()), problems, fmt.Sprintf("%d plain documents (5 bytes, 4 bytes without newline, empty, a blank line, an empty field, two paragraphs, a comment first): the constructor succeeds and Next returns the paragraphs of the input", len(docs)))
+				fillProblems(nw, "control.NewParagraphReader", p.Pos(ctor.Pos()), problems, fmt.Sprintf("%d plain documents (5 bytes, 4 bytes without newline, empty, a blank line, an empty field, two paragraphs, a comment first, armor lines inside folded values): the constructor succeeds and Next returns the paragraphs of the input", len(docs)))
 			}
 		}
 	}
